@@ -20,7 +20,7 @@ suite `build`: `to_marrow(fields, rows)`.
   spec  : C01 decode(impl arrays) = interp(rows)      (SaModel/Spec/{Decode,Interp})
           C03 WF field array, one length, one array per field   (SaModel/Spec/WF) — for EVERY accepted input, rows
               with malformed key/value call streams (`containsMalformed`) included: since repo fix eafdf15 a Map builder
-              refuses the streams that do not alternate and `C03_wf` carries no hypothesis about them, so a malformed
+              refuses the streams that do not alternate and `C03_wfS` carries no hypothesis about them, so a malformed
               stream into a schema is never accepted with arrays that are not well formed
           C05 success ⇒ every row was representable; a malformed call stream accepted with arrays that are not well
               formed fails it (and C16: a failure that was not reported as an error)
@@ -248,7 +248,7 @@ def handle (j : Json) : Except String Verdict := do
     let undet := match mroot with
       | .ok root => anyUndet root
       | .error _ => false
-    -- no exemption for malformed call streams: whatever is accepted must be well formed (`C03_wf` has no `rawOK`)
+    -- no exemption for malformed call streams: whatever is accepted must be well formed (`C03_wfS` has no `rawOK`)
     let c03 := if wfAll then "pass" else "fail"
     -- … and a malformed stream accepted with such arrays is also a C16 / C05 failure (see above)
     let c16 := if anyMalformed && !wfAll && !fields.any hasFsb0 then "fail" else c16
